@@ -631,6 +631,13 @@ impl Check for C10 {
                     cases.push(Case::new(format!("n := \"Jo\"\nprint(\"pre\")\nprint({} {} {})\n", l, op, r2), 10, format!("literals compared directly: {} {} {}", l, op, r2)));
                 }
             }
+            // the same expression written on both sides produces two values
+            for e in ["[]", "{}", "[1]", "{\"k\": 1}", "fn () {\n}", "[[]]", "mk()", "xs[:]", "xs + []", "0 .. 2", "[xs..]", "{ob..}"] {
+                cases.push(Case::new(format!("fn mk() {{\nreturn []\n}}\nxs := [1]\nob := {{\"a\": 1}}\nprint({e} === {e})\nprint({e} !== {e})\nprint([{e}, {e}][0] === [{e}, {e}][1])\nu := {e}\nprint(u === {e})\nprint(u === u)\n", e = e), 10, format!("the expression {} written twice", e.replace('\n', " "))));
+                if !e.starts_with("fn") {
+                    cases.push(Case::new(format!("fn mk() {{\nreturn []\n}}\nxs := [1]\nob := {{\"a\": 1}}\nprint({e} == {e})\nprint({e} != {e})\n", e = e), 10, format!("the expression {} compared with itself", e)));
+                }
+            }
             ctx.judge(cases, |c, r, o| {
                 if !matches!(o.class, Class::Ok | Class::Err) {
                     return viol("crash", format!("{}: {:?}", c.meta, o.class));
